@@ -115,12 +115,18 @@ def display_char(prog, I, fn, value):
     """The character (or constant text) a Display impl prints for a concrete value."""
     sink = []
     I.watch = {"core::fmt::rt::Argument::<'_>::new_display": sink}
+    saved_ns = I.no_summary
+    I.no_summary = set(I.no_summary) | {'action::map_bit_board_to_squares'}      # printers may fill cells bit by bit
     st = State({})
     v = inputs.ref_to(I, st, 'v', value)
     f = inputs.ref_to(I, st, 'f', Tok('fmt', 'std::fmt::Formatter'))
     I.memo.clear()
-    I.call_fn(fn, [v, Ref(f.cell, (), True)], st)
-    I.watch = {}
+    try:
+        I.call_fn(fn, [v, Ref(f.cell, (), True)], st)
+    finally:
+        I.watch = {}
+        I.no_summary = saved_ns
+        I.memo.clear()
     out = []
     for caller, args in sink:
         a = args[0]
@@ -365,6 +371,8 @@ def check_header(ctx, prog, parser_interp):
         st = State({})
         a_sink, d_sink = [], []
         I.watch = {"Arguments::<'a>::new": a_sink, 'new_display': d_sink}
+        saved_ns = I.no_summary
+        I.no_summary = set(I.no_summary) | {'action::map_bit_board_to_squares'}
         I.memo.clear()
         try:
             v = inputs.ref_to(I, st, 'v', inputs.play_state(prog, gold, 0))
@@ -375,6 +383,8 @@ def check_header(ctx, prog, parser_interp):
             return
         finally:
             I.watch = {}
+            I.no_summary = saved_ns
+            I.memo.clear()
         if not a_sink:
             ctx.finding('C15.hdr', dfn, 'no-header', 'the printer makes no formatted write')
             return
@@ -671,6 +681,10 @@ def printer_skeleton(prog, I, dfn, gsv):
     ev = []
     I.watch = {"Arguments::<'a>::new": _Tagged('new', ev), "Arguments::<'a>::from_str": _Tagged('lit', ev),
                'new_display': _Tagged('disp', ev)}
+    # loops over the set bits of a board are followed bit by bit here (every printed cell must be tied to one known square), so
+    # the bulk summary of map_bit_board_to_squares is not used
+    saved_ns = I.no_summary
+    I.no_summary = set(I.no_summary) | {'action::map_bit_board_to_squares'}
     st = State({})
     I.memo.clear()
     try:
@@ -679,6 +693,8 @@ def printer_skeleton(prog, I, dfn, gsv):
         I.call_fn(dfn, [v, Ref(f.cell, (), True)], st)
     finally:
         I.watch = {}
+        I.no_summary = saved_ns
+        I.memo.clear()
     out = []
     pending = []
     for tag, (caller, args) in ev:
@@ -717,6 +733,11 @@ def printer_skeleton(prog, I, dfn, gsv):
                     stack = [a]
                     while stack:
                         x = stack.pop()
+                        if isinstance(x, BV):
+                            for b_ in x.bits:
+                                for d_ in B.deps(b_):
+                                    if isinstance(d_, tuple) and len(d_) == 2 and isinstance(d_[1], int):
+                                        idxs.add(d_[1])
                         if isinstance(x, Ite):
                             for var in B.rawvars(x.c):
                                 if isinstance(var, tuple) and len(var) == 2 and isinstance(var[1], int) and var[0] != '@' and var[0] != '#':
@@ -866,3 +887,84 @@ def printed_empty_board(prog):
     if conc is None or len(conc) != len(skel):
         return None, why or 'the empty board prints with a different length'
     return {q: (conc[pos[q]] if isinstance(conc[pos[q]], str) else None) for q in range(64)}, None
+
+
+def printed_cell_table(prog):
+    """{(square, combo)}: character, for every square and each of the 13 things that can stand there (nothing, or one of 6 types
+    of either colour).  Step 1 (symbolic board): the printer skeleton ties every board-dependent cell to the board bits of exactly
+    one square, so the cell is a function of that square's contents alone.  Step 2: that function is tabulated by interpreting
+    the printer on 13 constant boards in which square q holds combination (q + k) mod 13.  (The constant boards need not be
+    legal positions: step 1 is what makes the per-square table exhaustive.)"""
+    from .rules_c01 import constant_board, with_board
+    dfn = find_impl(prog, 'std::fmt::Display', 'engine::GameState', 'fmt')
+    if dfn is None:
+        return None, 'no Display for GameState'
+    I = inputs.make_interp(prog, fuel=40000000)
+    I.strict_unknown = False
+    skel, why = printer_skeleton(prog, I, dfn, inputs.play_state(prog, True, 0))
+    if skel is None:
+        return None, why
+    pos = {}
+    for k, c in enumerate(skel):
+        if isinstance(c, tuple) and c[0] == 'L':
+            if c[1] in pos:
+                return None, 'square %s has two board-dependent cells' % G.name(c[1])
+            pos[c[1]] = k
+    if sorted(pos) != list(range(64)):
+        return None, 'the printed diagram has no board-dependent cell for squares %s' % [G.name(q) for q in range(64) if q not in pos][:8]
+    combos = [None] + [(t, g) for t in G.STRENGTH for g in (True, False)]
+    table = {}
+    for k in range(len(combos)):
+        placed = {q: combos[(q + k) % len(combos)] for q in range(64)}
+        board = constant_board(prog, {q: c for q, c in placed.items() if c is not None})
+        I2 = inputs.make_interp(prog, fuel=40000000)
+        I2.strict_unknown = False
+        conc, why = printer_skeleton(prog, I2, dfn, with_board(prog, inputs.play_state(prog, True, 0), board))
+        if conc is None:
+            return None, why
+        if len(conc) != len(skel):
+            return None, 'the printed text of a constant board has %d characters, the skeleton %d' % (len(conc), len(skel))
+        for q in range(64):
+            c = conc[pos[q]]
+            table[(q, placed[q])] = c if isinstance(c, str) else None
+        for j, c in enumerate(conc):
+            if j not in pos.values() and c != skel[j]:
+                return None, 'a character outside the 64 cells (%r at offset %d) changes with the board' % (c, j)
+    return table, None
+
+
+def check_cell_table(ctx, prog, rule):
+    """every square prints the letter of what stands on it: 64 x 13 cells"""
+    ctx.rule(rule, 'printed diagram agrees with the board on every square: each of the 64 cells depends on the board bits of its '
+                   'own square only (symbolic printer skeleton), and for each of the 13 possible contents the cell is the '
+                   'expected character (gold upper case, silver lower case, x for an empty trap, blank otherwise): 832 cells '
+                   'tabulated from 13 constant boards')
+    try:
+        table, why = printed_cell_table(prog)
+    except Undecided as e:
+        table, why = None, str(e)
+    if table is None:
+        ctx.ob('printed cell table extracted', False)
+        ctx.finding(rule, 'Display for GameState', 'cell-table', 'cannot tabulate the printed cells: %s' % why)
+        return
+    bad = []
+    for (q, combo), c in sorted(table.items(), key=lambda kv: (kv[0][0], str(kv[0][1]))):
+        if combo is None:
+            want = 'x' if q in G.TRAPS else ' '
+        else:
+            want = G.LETTER[combo[0]].upper() if combo[1] else G.LETTER[combo[0]]
+        ok = c == want
+        ctx.ob('cell %s holding %s prints %r' % (G.name(q), combo, c), ok, sample=(q == 18 and combo in (None, ('Camel', False))))
+        if not ok:
+            bad.append((q, combo, c, want))
+    ctx.count('printed_cells_tabulated', len(table))
+    if len(table) != 64 * 13:
+        ctx.finding(rule, 'Display for GameState', 'cell-table', 'only %d of 832 cells tabulated' % len(table))
+    kinds = {}
+    for q, combo, c, want in bad:
+        key = ('empty' if combo is None else ('gold' if combo[1] else 'silver')) + (':trap' if q in G.TRAPS else '')
+        kinds.setdefault(key, []).append((q, combo, c, want))
+    for key, lst in sorted(kinds.items()):
+        q, combo, c, want = lst[0]
+        ctx.finding(rule, 'Display for GameState', 'cell:%s' % key, '%d cells wrong, e.g. %s holding %s prints %r (expected %r)'
+                    % (len(lst), G.name(q), combo, c, want))
